@@ -255,7 +255,7 @@ def unit_gray_fuzz(ctx, runs):
 
 def units(tier, seed):
     T = tier == "thorough"
-    sch = mc.all_schemes()
+    sch = mc.all_schemes(extended=True)
     us = []
     for i in range(0, len(sch), 6):
         us.append(Unit(f"tables_{i // 6:02d}", "c14:unit_tables", {"schemes": sch[i:i + 6]}, 2))
